@@ -604,6 +604,9 @@ C15_ProbeBytes(s, o) ==
      \* before the server closed the connection was received, so the report carries all of it
      /\ (Closed(o) /\ ~s.crst /\ o.lastSendAt # -1 /\ o.lastSendAt < o.closeAt - SlackSched => o.mlog[i].n[1] = o.wire.cs)
      /\ (Reported(o) => o.mlog[i].n[1] = ClosedRec(o).n[1])
+     \* (records of the real code only) second number = what the handler's read calls on the client socket had returned when
+     \* AddProbe was called, counted by the harness underneath the handler: the report carries exactly that
+     /\ (Len(o.mlog[i].n) >= 2 => o.mlog[i].n[1] = o.mlog[i].n[2])
 \* outcome classes: one status per class
 ExpectedStatus(s, o) ==
   LET h == s.hs
